@@ -13,7 +13,7 @@ from fractions import Fraction
 
 import numpy as np
 
-from common import (Ctx, LeanDriver, Property, dyadic, err_kind, frac, list_s, listlist_s, rat_s, run_property)
+from common import (Ctx, LeanDriver, Property, close, dyadic, err_kind, frac, list_s, listlist_s, rat_s, run_property)
 
 warnings.filterwarnings("ignore")
 CELL = 4.0
@@ -139,7 +139,7 @@ class C09(Property):
                 got = "ok " + listlist_s([sorted(int(i) for i in ix) for ix in sia._slice_index])
             except Exception as e:  # noqa
                 got = "err " + err_kind(e)
-            add("SliceIndexedAtoms._slice_index", case, f"index {list_s(ts, rat_s)} {rat_s(H)} {list_s(zs, rat_s)}", got)
+            add("SliceIndexedAtoms._slice_index", case, f"index {list_s(ts, rat_s)} {list_s(zs, rat_s)}", got)
             if all(t > 0 for t in ts):
                 pad = rng.choice([0.0, 0.0, 0.25, 1.0])
                 i = rng.randint(0, len(ts) + (1 if rng.random() < 0.1 else 0) - 1) if len(ts) else 0
@@ -176,9 +176,12 @@ class C09(Property):
                 return ["ok"] + [float(Fraction(x)) for x in t[1].split(",")]
             return t
 
+        def same(m, g):  # explicit sequences: the residual H - sum(v) is computed in float64 (ulp-level differences)
+            return m == g or (len(m) == len(g) and m[0] == g[0] == "ok" and all(close(a, b, rel=1e-12, abs_=1e-13) for a, b in zip(m[1:], g[1:])))
+
         for (name, case, got), model in zip(checks, outs):
             if name == "_validate_slice_thickness":
-                ctx.agree(name, case, model, got, ok=canon(model) == canon(got))
+                ctx.agree(name, case, model, got, ok=same(canon(model), canon(got)))
             else:
                 ctx.agree(name, case, model, got)
         ctx.traces += len(lines)
@@ -192,7 +195,10 @@ class C09(Property):
 
         H, zs, st = case["H"], case["zs"], case["st"]
         try:
-            pot = abtem.Potential(mk_atoms(zs, H, pbc=case.get("pbc", True)), gpts=8,
+            src = mk_atoms(zs, H, pbc=case.get("pbc", True))
+            if case.get("phonon_seed") is not None:  # displacements along z only (x encodes the atom index)
+                src = abtem.FrozenPhonons(src, 1, sigmas=0.1, seed=case["phonon_seed"], directions="z")
+            pot = abtem.Potential(src, gpts=8,
                                   slice_thickness=tuple(st) if isinstance(st, list) else st,
                                   projection=case.get("projection", "infinite"), periodic=case.get("periodic", True))
             ts = pot.slice_thickness
@@ -203,8 +209,7 @@ class C09(Property):
         # finite-projection membership with zero padding: every centre inside the cell lies in exactly one slice interval,
         # a centre on a boundary in the upper one
         inside = [k for k, z in enumerate(zs) if 0 <= z < H]
-        seq_off = isinstance(st, list) and abs(sum(ts) - H) > 1e-9 * max(1.0, H)  # recorded finding, reported below
-        if inside and not seq_off:
+        if inside and not case.get("phonon_seed"):
             sl = SlicedAtoms(mk_atoms(zs, H), tuple(ts), z_padding=0.0)
             mem = [idx_of(sl.get_atoms_in_slices(i)) for i in range(len(ts))]
             cnt = {k: sum(m.count(k) for m in mem) for k in inside}
@@ -219,27 +224,23 @@ class C09(Property):
                     if zs[k] == c0 and (k in mem[j] or k not in mem[j + 1]):
                         ctx.violation("boundary-centre-not-in-upper-slice-interval", case, {"atom": k, "z": zs[k]})
                         return
-        if abs(sum(ts) - H) > 1e-9 * max(1.0, H):
-            # explicit sequences are accepted within np.isclose (recorded finding); scalars must sum exactly
-            ctx.violation("accepted-thickness-sequence-sum-ne-height" if isinstance(st, list) else "thickness-sum-ne-height", case,
-                          {"sum": float(sum(ts)), "H": H})
-            if not isinstance(st, list):
-                return
+        if not (abs(sum(ts) - H) <= 1e-9 * max(1.0, H)):
+            ctx.violation("thickness-sum-ne-height", case, {"sum": float(sum(ts)), "H": H, "explicit_sequence": isinstance(st, list)})
+            return
         sa = sa0
         members = [idx_of(sa.get_atoms_in_slices(i)) for i in range(len(ts))]
-        count = {k: sum(m.count(k) for m in members) for k in range(len(zs))}
+        # every atom the slicer holds (after the code's own wrap / cut / displacement) is in exactly one slice; a periodic
+        # potential holds every input atom
+        held = sorted(int(round(a.position[0] / 2.0 ** -6)) - 1 for a in sa.atoms)
+        count = {k: sum(m.count(k) for m in members) for k in held}
         ctx.evaluations += 1
-        if not case.get("periodic", True):
-            # a non-periodic potential cuts atoms outside the box away: those may be in no slice, atoms inside in exactly one
-            count = {k: (1 if (c == 0 and not (0 <= zs[k] < H)) else c) for k, c in count.items()}
+        if case.get("periodic", True) and held != list(range(len(zs))):
+            ctx.violation("periodic-potential-loses-atoms", case, {"held": held, "n": len(zs)})
+            return
         if any(c != 1 for c in count.values()):
-            missing = [k for k, c in count.items() if c == 0]
-            short = isinstance(st, list) and float(sum(ts)) < H and all(c in (0, 1) for c in count.values()) and \
-                all(float(sum(ts)) - 1e-11 <= (zs[k] % H) < H for k in missing)
-            key = "accepted-short-thickness-sequence-drops-atom" if short else \
-                f"atom-not-in-exactly-one-slice-{case.get('projection', 'infinite')}"
-            ctx.violation(key, case,
-                          {"slices_per_atom": count, "z": {k: zs[k] for k, c in count.items() if c != 1}})
+            ctx.violation(f"atom-not-in-exactly-one-slice-{case.get('projection', 'infinite')}", case,
+                          {"slices_per_atom": {k: c for k, c in count.items() if c != 1},
+                           "prepared_z": {int(round(a.position[0] / 2.0 ** -6)) - 1: float(a.position[2]) for a in sa.atoms}})
             return
         cum = np.cumsum(ts)
         prepared = {int(round(a.position[0] / 2.0 ** -6)) - 1: float(a.position[2]) for a in sa.atoms}
@@ -323,9 +324,12 @@ class C09(Property):
                  "pbc": rng.choice([True, True, False, [True, True, False]])}
             if not c["periodic"]:  # atoms of a non-periodic potential just inside the top and bottom faces
                 c["zs"] = zs + [rng.choice([H - 5e-14, H - 1e-12, H - 2e-12, 0.0, 1e-13, H / 2])]
+            if i % 4 == 2:  # frozen phonons displace atoms near the faces out of the box (after the cut of a non-periodic potential)
+                c["phonon_seed"] = rng.randint(0, 10 ** 6)
+                c["zs"] = [z for z in c["zs"] if 0 <= z < H] + [1e-3, H - 1e-3]
             self.oracle_slices(ctx, c)
             ctx.case(c)
-            ctx.count(f"conf-slices:{'periodic' if c['periodic'] else 'nonperiodic'}:pbc={c['pbc'] if isinstance(c['pbc'], bool) else 'mixed'}")
+            ctx.count(f"conf-slices:{'periodic' if c['periodic'] else 'nonperiodic'}:pbc={c['pbc'] if isinstance(c['pbc'], bool) else 'mixed'}:{'phonons' if c.get('phonon_seed') is not None else 'static'}")
         # explicit sequences whose sum is short of / beyond the cell height but inside the np.isclose tolerance of
         # _validate_slice_thickness (the short ones are the recorded finding; the long ones must still partition the atoms)
         for i in range(ctx.n(6, 60)):
